@@ -14,7 +14,7 @@ META = {
                    "1 <= W <= BITS; INV is a representable W-bit pattern (so exactly one pattern is absent); integer fields: no overflow and exact inverse; "
                    "float fields: |p| <= 2^t (exact conversion), finite results, round-half-away template, and the forward-error bound of "
                    "decode->encode is below 1/2 - u(|p|+1) for the largest pattern, hence E(D(p)) = p for every p (all 2^W patterns, including the "
-                   "34-38-bit fields). A body that does not match the templates is a violation (fail closed).",
+                   "34-38-bit fields). A body that does not match the templates is a violation (fail closed). The hand-written SSR lists (1059 / 1065 / 1230) are covered by their quantiser rule (Q-quant) and, for their integer fields (satellite id, signal code, counts), by C16's mask / count / flow clauses, imported: every id pattern of the field's width is accepted by the encoder and written under its own id.",
     "assumptions": ["the negative-zero pattern of sign-magnitude fields is the allowed exception (not a W-bit value of parse's range)"],
 }
 
@@ -23,6 +23,13 @@ def run(ctx, res):
     prog = ctx.prog("K0")
     fieldmodel.check_fields(prog, res, prop="C08")
     fieldmodel.check_handwritten(prog, res, prop="C08")
+    # the hand-written SSR lists also carry plain integer fields (satellite id, signal code, counts) whose every pattern must survive
+    # decode -> encode: the encoder has to accept the whole range of the id field and write each group under its own id (C16's Q-mask / Q-pred /
+    # Q-flow clauses, imported)
+    import ssr, engine
+    view = engine.Filtered(res, {"Q-mask", "Q-pred", "Q-flow", "Q-1230", "K-adeq"})
+    ssr.rule_count_fields(prog, view)
+    ssr.rule_value_flow(prog, view)
     # the field models read "carrier kind + width" as unsigned / two's-complement / sign-magnitude values: that reading is decided here
     import bitio
     bitio.rule_bitsem(prog, res)
